@@ -195,3 +195,54 @@ func GenAnnexB(r *Rng) AnnexBCase {
 	}
 	return c
 }
+
+// ---------------------------------------------------------------------------
+// Newline-sensitive programs (ECMA-262 12.10 automatic semicolon insertion and
+// the restricted productions): a statement that may or may not continue on
+// the next line.  Node decides what the input means (invalid combinations are
+// discarded by the caller); the output must mean the same.
+type ASICase struct {
+	Src       string
+	YieldLT   bool // `yield` at a line end followed by a line that could continue an expression
+	PostfixLT bool // `x++` / `x--` at a line end followed by a line starting with [ ( or a template
+	Shape     string
+}
+
+var asiEnds = []string{"a++", "a--", "b = a++", "b = a--", "a", "b = a", "b = f", "f", "b = 1", "b = a + 1", "b = f(1)", "b = [1]", "b = {}", "b = 'x'", "b = /r/", "b = () => 1", "b = function () {}", "b = class {}", "b = a ? 1 : 2", "b = typeof a", "b = -a", "b = !a", "void a", "a +", "b = a -", "b = a *", "b ="}
+var asiStarts = []string{"[$p(\"s\", 1)].length", "($p(\"s\", 2))", "`t${$p(\"s\", 3)}`", "+$p(\"s\", 4)", "-$p(\"s\", 5)", "++a", "--a", "/2/.test(\"2\") && $p(\"s\", 6)", "/ 2 / $p(\"s\", 7)", "$p(\"s\", 8)", "[0, 1].forEach(x => $p(\"s\", x))", "(function () { $p(\"s\", 9) })()", "`x`.length", ".5 + $p(\"s\", 10)", "in {}", "instanceof Object", "?.x", "=> 1"}
+
+func GenASI(r *Rng) ASICase {
+	pre := "var a = 1, b = 2; function f(x) { $p(\"f\", typeof x); return f }\n"
+	post := "\n$p(\"end\", typeof a == \"number\" ? a : typeof a, typeof b == \"number\" ? b : typeof b);\n"
+	switch r.Intn(6) {
+	case 0: // restricted productions: return / break / continue / yield / throw / async
+		k := r.Intn(6)
+		st := asiStarts[r.Intn(len(asiStarts))]
+		var body string
+		switch k {
+		case 0:
+			body = "function g() { return\n" + st + " }\n$p(\"g\", g());"
+		case 1:
+			body = "L: for (var i = 0; i < 2; i++) { $p(i); if (i) break\nL\n" + st + " }"
+		case 2:
+			body = "L: for (var i = 0; i < 2; i++) { $p(i); if (!i) continue\nL\n" + st + " }"
+		case 3:
+			body = "function* h() { var x = yield\n" + st + "\nreturn x }\nvar it = h(); $p(\"y\", it.next().value, it.next(5).value);"
+		case 4:
+			body = "for (var i = 0; i < 2; i++) { $p(i); if (i) break\n" + st + " }"
+		default:
+			body = "var async = 3; var r = async\nfunction q() { return 4 }\n$p(\"a\", r, typeof q);"
+		}
+		return ASICase{Src: pre + "try {\n" + body + "\n} catch (e) { $p(\"E\", e && e.constructor && e.constructor.name); }" + post, Shape: fmt.Sprintf("restricted%d", k), YieldLT: k == 3}
+	default:
+		e := asiEnds[r.Intn(len(asiEnds))]
+		st := asiStarts[r.Intn(len(asiStarts))]
+		c := ASICase{Shape: "line-pair"}
+		if (e == "a++" || e == "a--" || e == "b = a++" || e == "b = a--") && (strings.HasPrefix(st, "[") || strings.HasPrefix(st, "(") || strings.HasPrefix(st, "`")) {
+			c.PostfixLT = true
+			c.Shape = "postfix-then-bracket"
+		}
+		c.Src = pre + "try {\n" + e + "\n" + st + "\n} catch (e) { $p(\"E\", e && e.constructor && e.constructor.name); }" + post
+		return c
+	}
+}
